@@ -44,16 +44,23 @@ type config struct {
 	edit      int
 	noSettle  bool
 	statusVar int // 0: XR ready + claimConditionTypes, 1: XR ready, none listed, 2: XR not ready + listed
+	xrEdits   int // family xr-edits: subset of xrEditNames the XR side writes after quiescence
 }
 
 var editNames = []string{"none", "modify-user-fields", "remove-user-fields", "complement-machinery", "change-machinery-values", "complement-labels"}
 
 func (c config) String() string {
+	if c.family == "xr-edits" {
+		return fmt.Sprintf("mode=%s family=%s machinery=[%s] shape=%d claimExt=%v xr-side-writes=[%s]", c.mode, c.family, c.mach, c.shape, c.claimExt, xrEditString(c.xrEdits))
+	}
 	return fmt.Sprintf("mode=%s family=%s machinery=[%s] shape=%d labels=%s annotations=%s claimExt=%v xrExt=%v edit=%s xrStatus=%d",
 		c.mode, c.family, c.mach, c.shape, keySetString(c.labels), keySetString(c.anns), c.claimExt, c.xrExt, editNames[c.edit], c.statusVar)
 }
 
 func (c config) nontrivial() bool {
+	if c.family == "xr-edits" {
+		return c.xrEdits != 0
+	}
 	return c.mach.nonEmpty() || hasSpecialKey(c.labels) || hasSpecialKey(c.anns)
 }
 
@@ -366,6 +373,11 @@ func run(r *explore.Run, rep *report.R, sc string, c config) {
 		}
 	}
 
+	w.fail()
+}
+
+// fail reports the deviations collected by the syncs of one case.
+func (w *runner) fail() {
 	if len(w.viols) == 0 {
 		return
 	}
@@ -381,11 +393,11 @@ func run(r *explore.Run, rep *report.R, sc string, c config) {
 		}
 	}
 	h := fnv.New32a()
-	fmt.Fprint(h, r.Choices)
+	fmt.Fprint(h, w.r.Choices)
 	pick := sigs[int(h.Sum32())%len(sigs)]
 	for _, v := range w.viols {
 		if v.sig == pick {
-			r.Failf(v.sig, "%s  {case: %s; all deviations in this case: %s}", v.msg, c, strings.Join(sigs, ", "))
+			w.r.Failf(v.sig, "%s  {case: %s; all deviations in this case: %s}", v.msg, w.c, strings.Join(sigs, ", "))
 		}
 	}
 }
@@ -494,6 +506,9 @@ func TestCheck(t *testing.T) {
 					add("fields-env", func(sc string) func(r *explore.Run) { return fieldsBody(mode, quickSp.mach, true, rep, sc) })
 				}
 				add("meta", func(sc string) func(r *explore.Run) { return metaBody(mode, quickSp, rep, sc) })
+				if mode != "upgrade" {
+					add("xr-side-edits", func(sc string) func(r *explore.Run) { return xrEditsBody(mode, rep, sc) })
+				}
 				continue
 			}
 			add("fields-all", func(sc string) func(r *explore.Run) { return fieldsBody(mode, allMachSets(), false, rep, sc) })
@@ -505,6 +520,7 @@ func TestCheck(t *testing.T) {
 			spA := space{labels: reducedKeySets(), anns: rest}
 			add("meta-labels", func(sc string) func(r *explore.Run) { return metaBody(mode, spL, rep, sc) })
 			add("meta-annotations", func(sc string) func(r *explore.Run) { return metaBody(mode, spA, rep, sc) })
+			add("xr-side-edits", func(sc string) func(r *explore.Run) { return xrEditsBody(mode, rep, sc) })
 		}
 		list = append(list, report.Scenario{Name: "user-edits-during-first-reconcile", Bound: 0, Wrap: report.Bubble(t), Body: func(r *explore.Run) { bindBody(r, rep, "user-edits-during-first-reconcile") }})
 		return list
